@@ -463,6 +463,10 @@ def run(ctx):
 
     # ---------------------------------------------------------------- 2. qmail_close table
     r2 = rep.rule('C07.2-close-table', 'R-TABLE', 'qmail_close(): "" only for exit 0 without failure; 11..40 -> D; crash and every other status -> Z (82 custom text, 115 compat: don\'t care)')
+    # the status macros every verdict on a child process goes through (wait.h): as functions of the status word
+    from rules import libtab as _lt
+    for inst_, v_ in sorted(_lt.waitmacro_sites(db, 'qmail.c').items()):
+        r2.check(v_[0], inst_, v_[1], v_[2], v_[3])
     H2 = CloseHooks()
     for init in (0, 1):
         H2.fn = 'qmail_close'
